@@ -2527,3 +2527,47 @@ try:
     _glpk.options["msg_lev"] = "GLP_MSG_OFF"
 except ImportError:
     pass""", "")
+
+# hand-written probes of the code around the analysed functions (class-level state, flushed copies, compilation options)
+M2("C14", "around/categories-shared-at-class-level", [
+    (CONT, """    bound_inf: float
+    bound_sup: float
+
+    def __init__(self, uri: Optional[str] = None):""", """    bound_inf: float
+    bound_sup: float
+    _categories: SortedSet = SortedSet()
+
+    def __init__(self, uri: Optional[str] = None):"""),
+    (CONT, "        self._categories: SortedSet = SortedSet()\n", "")], "R-C14-2", "one category set for every continuum of the process")
+M2("C13", "around/categories-shared-at-class-level-c13", [
+    (CONT, """    bound_inf: float
+    bound_sup: float
+
+    def __init__(self, uri: Optional[str] = None):""", """    bound_inf: float
+    bound_sup: float
+    _categories: SortedSet = SortedSet()
+
+    def __init__(self, uri: Optional[str] = None):"""),
+    (CONT, "        self._categories: SortedSet = SortedSet()\n", "")], "R-C13-2")
+B("C14", "around/class-level-default-rebound-by-constructor", CONT, """    bound_inf: float
+    bound_sup: float
+
+    def __init__(self, uri: Optional[str] = None):""", """    bound_inf: float
+    bound_sup: float
+    _categories: SortedSet = SortedSet()
+
+    def __init__(self, uri: Optional[str] = None):""", "the constructor still binds a fresh set on every path")
+M("C16", "around/flushed-copy-keeps-annotators", CONT,
+  """        continuum = Continuum(self.uri)
+        continuum.bound_inf, continuum.bound_sup = self.bound_inf, self.bound_sup
+        continuum.best_window_size = self.best_window_size
+        return continuum""",
+  """        continuum = Continuum(self.uri)
+        for annotator in self.annotators:
+            continuum.add_annotator(annotator)
+        continuum.bound_inf, continuum.bound_sup = self.bound_inf, self.bound_sup
+        continuum.best_window_size = self.best_window_size
+        return continuum""", "R-SUP", "samples carry the reference's annotators next to the sampled ones")
+B("C04", "around/kernel-compiled-with-cache", DIS,
+  "dissimilarity_dec = nb.njit(nb.float32(nb.float32[:], nb.float32[:]))",
+  "dissimilarity_dec = nb.njit(nb.float32(nb.float32[:], nb.float32[:]), cache=True)", "on-disk cache of the compiled kernel: same semantics")
